@@ -23,6 +23,18 @@ def guard_reasons(p, evs, snap_gen_leaf):
                 reasons.add('generation==0')
             if x in gloads and y in snap_gen_leaf:
                 reasons.add('generation==cached')
+    # `x == 0` spelled as an unsigned range test: x < 1, !(x >= 1), x <= 0
+    for term, op, val, _ in p.conds:
+        cc = common.cmp_const_right(term)
+        t = common.cond_truth(op, val)
+        if cc is None or t is None:
+            continue
+        ug = common.unsigned_ge(cc[0], cc[2])
+        if ug is not None and ug[0] == 1 and (ug[1] != t):       # the path has established not (x >= 1)
+            if cc[1] in vloads:
+                reasons.add('version==0')
+            if cc[1] in gloads:
+                reasons.add('generation==0')
     # a switch on the loaded value itself (`match version { 0 => .. }`)
     for term, op, val, _ in p.conds:
         if op == '==' and val == 0:
@@ -59,7 +71,10 @@ def run_rules(ctx, chk):
                 any(v[0] == 't' and v[1] == 'call' and 'read' in v[2][0] for v in stores.values()):
             for k, v in stores.items():
                 if not (v[0] == 't' and v[1] == 'call' and 'read' in v[2][0]):
-                    snap_gen_leaf.add(psi.T('field', psi.T('deref', ('sym', 'self')), k))
+                    leaf = psi.T('deref', ('sym', 'self'))
+                    for part in str(k).split('.'):
+                        leaf = psi.T('field', leaf, part)
+                    snap_gen_leaf.add(leaf)
     if not snap_gen_leaf:
         chk.missing('C03.G2', 'acceptance path of snapshot() that caches a generation with the record')
     reasons_seen = set()
